@@ -19,7 +19,7 @@ RULE = ("stream expr-trees: seeded random expressions over plain, namespaced, po
 TRUSTED_BASE = ["sympy's StrPrinter for Add/Mul/Rational/Float (the base class of bartiq's printer)"]
 ASSUMPTIONS = ["numeric literals are compared to 15 significant digits (relative 1e-14) when a float is involved"]
 
-SYMS = ["x", "y", "a.b", "#p", "a.#q", "lambda", "in", "N_1"]
+SYMS = ["x", "y", "a.b", "#p", "a.#q", "lambda", "in", "N_1", "#in", "b.c.#lambda"]     # (ports NAMED like reserved words too)
 
 
 def gen(rng, depth):
@@ -89,6 +89,8 @@ def gen_cases(rng, n):
     while len(out) < n:
         e = gen(rng, rng.randint(1, 4))
         c = {"expr": e}
+        if rng.random() < 0.35:
+            c["direct"] = True      # the object is assembled with sympy directly, not by reading text (see impl_roundtrip)
         if rng.random() < 0.3:
             syms = sorted(E.fv(e) - {"K"})
             if syms:
